@@ -458,6 +458,47 @@ theorem C20_revision_order_irrelevant (a b : List Nat) (h : a.Perm b) : moduleRe
 example : moduleRevision [200001010000, 201001010000] = some 201001010000 := by decide
 example : moduleRevision [201001010000, 200001010000] = some 201001010000 := by decide
 
+/-! ### borrower repositories on the command line of mibdump -/
+
+theorem borrowerFlavours_append (pre post : List Opt) (f : Bool) :
+    borrowerFlavours (pre ++ post) f = borrowerFlavours pre f ++ borrowerFlavours post (f || pre.any Opt.isGen) := by
+  induction pre generalizing f with
+  | nil => simp [borrowerFlavours]
+  | cons o rest ih =>
+    cases o with
+    | borrower u => simp [borrowerFlavours, ih, Opt.isGen]
+    | genTexts => simp [borrowerFlavours, ih, Opt.isGen]
+    | other => simp [borrowerFlavours, ih, Opt.isGen]
+
+/-- **C20_borrowers_in_order**: the repositories are filed in the order of the command line, none dropped, none added. -/
+theorem C20_borrowers_in_order (os : List Opt) (f : Bool) :
+    (borrowerFlavours os f).map (·.1) = os.filterMap (fun o => match o with | .borrower u => some u | _ => none) := by
+  induction os generalizing f with
+  | nil => rfl
+  | cons o rest ih =>
+    cases o with
+    | borrower u => simp [borrowerFlavours, ih]
+    | genTexts => simp [borrowerFlavours, ih]
+    | other => simp [borrowerFlavours, ih]
+
+/-- **C20_borrower_flavour**: a repository holds copies with texts exactly when `--generate-mib-texts` stands before it on
+the command line; it matches the request of the run (and may deliver) exactly when no `--generate-mib-texts` follows it
+without one preceding it. -/
+theorem C20_borrower_flavour (pre post : List Opt) (u : String) :
+    borrowerFlavours (pre ++ .borrower u :: post) false =
+      borrowerFlavours pre false ++ (u, pre.any Opt.isGen) :: borrowerFlavours post (pre.any Opt.isGen) ∧
+    ((pre.any Opt.isGen = requestFlavour (pre ++ .borrower u :: post)) ↔ (pre.any Opt.isGen = true ∨ post.any Opt.isGen = false)) := by
+  constructor
+  · rw [borrowerFlavours_append]
+    simp [borrowerFlavours]
+  · unfold requestFlavour
+    simp only [List.any_append, List.any_cons, Opt.isGen, Bool.false_or]
+    cases pre.any Opt.isGen <;> cases post.any Opt.isGen <;> simp
+
+/-- `--mib-borrower=A --generate-mib-texts --mib-borrower=B`: A is a no-texts repository and is passed over, B delivers -/
+example : borrowerFlavours [.borrower "A", .genTexts, .borrower "B"] false = [("A", false), ("B", true)] ∧
+    requestFlavour [.borrower "A", .genTexts, .borrower "B"] = true := by decide
+
 end Pysmi.Cli
 
 namespace Pysmi.Generated.Cli
